@@ -1495,7 +1495,20 @@ end Jwt.Generated
     return "JsonCalls.lean", text, {"calls": calls}
 
 
-GENERATORS = [gen_base64, gen_alg, gen_common, gen_jwk, gen_ops, gen_cli, gen_conc, gen_ecframe, gen_ll, gen_base64code, gen_digests, gen_gates, gen_decisions, gen_dispatch, gen_claims, gen_jsonflags]
+def gen_jwksloops(repo, build):
+    """jwks.c: the keyring functions (list walks with early exits, removal during the walk, free_all) translated
+    statement by statement over the node heap (tie/loops.py on the mini-C parser tie/cmini.py)"""
+    sys.path.insert(0, os.path.dirname(os.path.abspath(__file__)))
+    import cmini
+    import loops
+    try:
+        text, info = loops.generate(repo)
+    except (loops.LoopError, cmini.CParseError) as e:
+        raise ExtractError("jwks.c keyring functions: %s" % e)
+    return "JwksLoops.lean", text, info
+
+
+GENERATORS = [gen_base64, gen_alg, gen_common, gen_jwk, gen_ops, gen_cli, gen_conc, gen_ecframe, gen_ll, gen_base64code, gen_digests, gen_gates, gen_decisions, gen_dispatch, gen_claims, gen_jsonflags, gen_jwksloops]
 
 
 def main():
